@@ -91,13 +91,16 @@ func init() {
 		kinds := []listenerKind{
 			{"http", func(p *proxyCfg) { p.BindAddress = fmt.Sprintf("127.0.0.1:%d", freePort()) }},
 			{"tls", func(p *proxyCfg) { p.ForceHTTPS = true; p.SecureBindAddress = fmt.Sprintf("127.0.0.1:%d", freePort()) }},
-			{"unix", func(p *proxyCfg) { p.BindAddress = "unix://" + sock; p.TrustedIPs = []string{"127.0.0.1", "::1", "10.0.0.0/8"} }},
+			{"unix", func(p *proxyCfg) {
+				p.BindAddress = "unix://" + sock
+				p.TrustedIPs = []string{"127.0.0.1", "::1", "10.0.0.0/8"}
+			}},
 			{"h2-front", func(p *proxyCfg) {}},
 		}
 		for _, lk := range kinds {
 			cfg := proxyCfg{InjectRequest: defaultInject(), Htpasswd: map[string]string{"bob": "pw"}, SkipJwtBearer: true,
 				SkipAuthRoutes: []string{"^/files/"},
-				Upstreams: []options.Upstream{{ID: "root", Path: "/", URI: "U:root"}, {ID: "files", Path: "/files/", URI: "file://" + dir}}}
+				Upstreams:      []options.Upstream{{ID: "root", Path: "/", URI: "U:root"}, {ID: "files", Path: "/files/", URI: "file://" + dir}}}
 			lk.cfg(&cfg)
 			e, err := newEnv(c, cfg)
 			if err != nil {
